@@ -1,13 +1,22 @@
 (* C13 — alter_column changes only what it was asked to change, on every dialect.
    Statement-only file: every theorem is `exact <lemma of Proofs/AlterColProof.v>`.
-   Model: Model/AlterCol.v (plan = alter_column, sem, run, override); property, decider,
-   correspondence: Spec/C13.v. *)
+   Model: Model/AlterCol.v (plan = toimpl_alter_column, sem, run, override); property, decider,
+   correspondence: Spec/C13.v.
+   Every abstract statement carries the column name it addresses; `sem` fails (None) on a statement that
+   names a column name the column does not have at that point, so `run ss st0 = Some _` says that the ORDER of
+   the statements relative to a rename is right. *)
 From AV Require Import Spec.C13 Proofs.AlterColProof.
 
-(* the abstract reading of a statement as a constant assignment is its meaning *)
-Theorem C13_sem_is_assign : forall st s, sem st s = fold_left set (assign s) st.
-Proof. exact sem_assign. Qed.
+(* the abstract reading of a statement as a constant assignment is what it does to the column it addresses *)
+Theorem C13_sem_is_assign : forall st s, apply st s = fold_left set (assign s) st.
+Proof. exact apply_assign. Qed.
 Print Assumptions C13_sem_is_assign.
+
+(* run = the total effect exactly when every statement names the column's current name *)
+Theorem C13_run_addressing : forall ss st,
+  run ss st = if addr_ok (c_name st) ss then Some (run_total ss st) else None.
+Proof. exact run_spec. Qed.
+Print Assumptions C13_run_addressing.
 
 (* decider soundness, for ARBITRARY statement lists (it is applied to the implementation's output) *)
 Theorem C13_decider_sound : forall i o, check_C13 i o = true -> C13_holds i o.
@@ -15,19 +24,20 @@ Proof. exact check_C13_sound. Qed.
 Print Assumptions C13_decider_sound.
 
 (* main theorem: the model satisfies the whole property on every dialect, for all requests, all stated
-   existing attributes and all (abstract) values -- except that a requested autoincrement must be one the
-   dialect honours (see C13_autoinc_ignored_refuted): hence `_partial` *)
-Theorem C13_model_holds_partial : forall i, autoinc_honoured i = true -> C13_holds i (model_C13 i).
+   existing attributes and all (abstract) values -- outside the two refuted classes of inclass_C13
+   (C13_autoinc_ignored_refuted, C13_check_after_rename_refuted): hence `_partial` *)
+Theorem C13_model_holds_partial : forall i, inclass_C13 i = true -> C13_holds i (tagged_C13 i).
 Proof. exact model_holds_partial. Qed.
 Print Assumptions C13_model_holds_partial.
 
-(* its three clauses separately *)
+(* its clauses separately *)
 Theorem C13_effect : forall i ss st0,
-  autoinc_honoured i = true ->                     (* see C13_autoinc_ignored_refuted *)
+  inclass_C13 i = true ->                          (* the two refuted classes excluded *)
   model_C13 i = (ss, None) ->                      (* ran to completion, no exception *)
   matches (i_ex i) st0 ->                          (* every stated existing_* is the column's value *)
   stated_enough ss (i_req i) (i_ex i) st0 ->       (* see C13_stated_enough_exact / _minimal *)
-  run ss st0 = override st0 (i_req i).             (* requested set, everything else unchanged *)
+  run ss st0 = Some (override st0 (i_req i)).      (* every statement addresses the column by its current name,
+                                                      requested set, everything else unchanged *)
 Proof. exact effect_all. Qed.
 Print Assumptions C13_effect.
 
@@ -40,7 +50,8 @@ Print Assumptions C13_restated.
 Theorem C13_raises_instead : forall i ss e, model_C13 i = (ss, Some e) ->
   unsupported i = true /\
   forall st0, matches (i_ex i) st0 -> stated_enough ss (i_req i) (i_ex i) st0 ->
-    forall a, get a (run ss st0) = get a st0 \/ get a (run ss st0) = get a (override st0 (i_req i)).
+    exists st', run ss st0 = Some st' /\
+    forall a, get a st' = get a st0 \/ get a st' = get a (override st0 (i_req i)).
 Proof. exact raises_instead_all. Qed.
 Print Assumptions C13_raises_instead.
 
@@ -50,23 +61,34 @@ Print Assumptions C13_raises_iff_unsupported.
 
 (* toimpl.alter_column wraps the impl-level call in DROP / ADD CONSTRAINT for type-bound CHECKs only; those
    statements leave the six column attributes alone *)
-Theorem C13_toimpl_frame : forall i st0, run (fst (model_C13 i)) st0 = run (fst (inner_C13 i)) st0.
+Theorem C13_toimpl_frame : forall i st0, run_total (fst (model_C13 i)) st0 = run_total (fst (inner_C13 i)) st0.
 Proof. exact toimpl_frame. Qed.
 Print Assumptions C13_toimpl_frame.
 
-(* FINDING: outside MySQL/MariaDB a requested autoincrement is never applied (no statement touches it, nothing
+(* FINDING 1: outside MySQL/MariaDB a requested autoincrement is never applied (no statement touches it, nothing
    is raised), so the full-strength statement is false there *)
-Theorem C13_autoinc_ignored : forall i st0,
-  is_mysql (i_d i) = false -> c_autoinc (run (fst (model_C13 i)) st0) = c_autoinc st0.
+Theorem C13_autoinc_ignored : forall i st0 st',
+  is_mysql (i_d i) = false -> run (fst (model_C13 i)) st0 = Some st' -> c_autoinc st' = c_autoinc st0.
 Proof. exact autoinc_ignored. Qed.
 Print Assumptions C13_autoinc_ignored.
 
 Theorem C13_autoinc_ignored_refuted : forall d sch, is_mysql d = false ->
-  autoinc_honoured (mkIn d sch req_autoinc_only ex_nothing) = false /\
-  model_C13 (mkIn d sch req_autoinc_only ex_nothing) = ([], None) /\
-  ~ C13_holds (mkIn d sch req_autoinc_only ex_nothing) (model_C13 (mkIn d sch req_autoinc_only ex_nothing)).
+  inclass_C13 (mkIn d sch req_autoinc_only ex_nothing) = false /\
+  tagged_C13 (mkIn d sch req_autoinc_only ex_nothing) = ([], None) /\
+  ~ C13_holds (mkIn d sch req_autoinc_only ex_nothing) (tagged_C13 (mkIn d sch req_autoinc_only ex_nothing)).
 Proof. exact autoinc_refuted. Qed.
 Print Assumptions C13_autoinc_ignored_refuted.
+
+(* FINDING 2: with new_column_name and a type_ that carries a type-bound CHECK, toimpl.alter_column emits
+   ADD CONSTRAINT k CHECK (<old column name> IN ...) AFTER the rename: the statement names a column that no
+   longer exists (every dialect except SQLite, which skips the ADD) *)
+Theorem C13_check_after_rename_refuted : forall d sch, d <> Dsqlite ->
+  inclass_C13 (mkIn d sch req_rename_enum ex_nothing) = false /\
+  snd (model_C13 (mkIn d sch req_rename_enum ex_nothing)) = None /\
+  run (fst (model_C13 (mkIn d sch req_rename_enum ex_nothing))) st_plain = None /\
+  ~ C13_holds (mkIn d sch req_rename_enum ex_nothing) (tagged_C13 (mkIn d sch req_rename_enum ex_nothing)).
+Proof. exact check_after_rename_refuted. Qed.
+Print Assumptions C13_check_after_rename_refuted.
 
 (* the hypothesis stated_enough, spelled out per dialect, exactly ... *)
 Theorem C13_stated_enough_exact : forall i st0,
@@ -86,17 +108,22 @@ Print Assumptions C13_stated_enough_minimal.
 
 (* non-vacuity of the hypothesis sets *)
 Example C13_effect_nonvacuous :
-  exists ss, autoinc_honoured nv_in = true /\ model_C13 nv_in = (ss, None) /\ matches (i_ex nv_in) nv_st /\
-             stated_enough ss (i_req nv_in) (i_ex nv_in) nv_st /\ run ss nv_st <> nv_st.
+  exists ss, inclass_C13 nv_in = true /\ model_C13 nv_in = (ss, None) /\ matches (i_ex nv_in) nv_st /\
+             stated_enough ss (i_req nv_in) (i_ex nv_in) nv_st /\ run ss nv_st <> Some nv_st.
 Proof. exact effect_nonvacuous. Qed.
-Example C13_raises_nonvacuous : model_C13 nv_raise = ([MSSQLAlterNull T1 false], Some CompileError).
+Example C13_raises_nonvacuous : model_C13 nv_raise = ([MSSQLAlterNull 1%N T1 false], Some CompileError).
 Proof. exact raises_nonvacuous. Qed.
+(* the decider accepts the model's outputs and rejects: a wrong restated value; the comment statement placed
+   after the rename (names a column that no longer exists); a statement on another schema *)
 Example C13_decider_nonvacuous :
-  check_C13 nv_in (model_C13 nv_in) = true /\ check_C13 nv_raise (model_C13 nv_raise) = true /\
-  check_C13 nv_in ([MySQLChange 2%N (mkSpec T0 false true None (Some 30%N))], None) = false.
+  check_C13 nv_in (tagged_C13 nv_in) = true /\ check_C13 nv_raise (tagged_C13 nv_raise) = true /\
+  check_C13 nv_in ([(tS, MySQLChange 1%N 2%N (mkSpec T0 false true None (Some 30%N)))], None) = false /\
+  check_C13 nv_order ([(tS, SetComment 1%N (Some 31%N)); (tS, Rename 1%N 2%N)], None) = true /\
+  check_C13 nv_order ([(tS, Rename 1%N 2%N); (tS, SetComment 1%N (Some 31%N))], None) = false /\
+  check_C13 nv_order ([(tS, SetComment 1%N (Some 31%N)); (tN, Rename 1%N 2%N)], None) = false.
 Proof. exact decider_nonvacuous. Qed.
 Example C13_toimpl_nonvacuous :
-  model_C13 (mkIn Doracle false (mkReq (Some (mkTy 13 false (Some 51%N))) None TFalse None TFalse None None)
+  model_C13 (mkIn Doracle tN (mkReq (Some (mkTy 13 false (Some 51%N))) None TFalse None TFalse None None)
                   (mkEx 1%N (Some (mkTy 12 false (Some 50%N))) None TFalse None None))
-  = ([DropConstraint 50%N; SetType (mkTy 13 false (Some 51%N)) None; AddConstraint 51%N], None).
+  = ([DropConstraint 50%N; SetType 1%N (mkTy 13 false (Some 51%N)) None; AddConstraint 1%N 51%N], None).
 Proof. reflexivity. Qed.
